@@ -68,6 +68,10 @@ def gen(tier):
         show("input", &x); show("result", &r);
         assert!(matches!(&r, Ok(Value::Float(f)) if same_f64(*f, x as f64) && same_f32(*f as f32, x)));
         std::mem::forget(r);""", meta={"kind": "f32", "domain": "every bit pattern (widening is exact)"})
+    add("human_readable", """
+        // serde_json is a human-readable format: types that branch on this flag (IpAddr, SocketAddr, ..) must take the same shape
+        assert!(serde::Serializer::is_human_readable(&ValueSerializer));
+        assert!(serde::Serializer::is_human_readable(&StringSerializer));""", meta={"kind": "Serializer::is_human_readable (data-model flag shared with serde_json)"})
     add("bool", """
         let x = inp.bool();
         let r = x.serialize(ValueSerializer);
